@@ -24,6 +24,7 @@ import PyFatModel.Proofs.Alloc
 import PyFatModel.Proofs.Dir
 import PyFatModel.Proofs.Names
 import PyFatModel.Proofs.FsRun
+import PyFatModel.Proofs.FsTreeRm
 
 open Model.Alloc
 
@@ -92,6 +93,18 @@ theorem c01_fs_removetree (v : Model.Fs.Vol) (count : Nat) (hv : Proofs.FsInv.Vo
         Proofs.FsRun.specRun v s (Model.Fs.abs s) (Model.Fs.expandTree (s.nodes.length + 1) s.nodes path loc) :=
   ⟨(Proofs.FsRun.removetree_good hv h path).1, Proofs.FsRun.removetree_sim hv h path loc hr hd⟩
 
+/-- `removetree(path)` against the abstract "delete the subtree" specification, frame half: in every state with
+    the invariant — any tree, whether the call succeeds, fails at once or stops half-way — the entries that are
+    not at or below `path` are exactly those before the call (order, kind, size), and the call adds no entry.
+    (The other half — nothing at or below `path` is left after a successful call — is decided by lock step with
+    the real code, suite `fsmodel`; it is not a theorem, so this is the `partial` form of the delete-subtree statement.) -/
+theorem c01_fs_removetree_frame (v : Model.Fs.Vol) (count : Nat) (hv : Proofs.FsInv.VolOK v count) (s : Model.Fs.St)
+    (h : Proofs.FsInv.Inv v count s) (path : List Nat) :
+    (Model.Fs.abs (Model.Fs.removetree v s path).1).filter (Proofs.FsTreeRm.outside path) =
+        (Model.Fs.abs s).filter (Proofs.FsTreeRm.outside path) ∧
+      (Model.Fs.abs (Model.Fs.removetree v s path).1).Sublist (Model.Fs.abs s) :=
+  Proofs.FsTreeRm.removetree_frame hv h path
+
 /-- path resolution through the directories (what `get_entry` does) is lookup by path -/
 theorem c01_fs_lookup (nodes : List Model.Fs.Node) (h : Proofs.FsTree.TreeInv nodes) (q : List Nat) (hq : q ≠ []) :
     Model.Fs.resolve nodes q = (nodes.find? (fun n => n.path == q)).map Model.Fs.Loc.node :=
@@ -111,6 +124,13 @@ example : Proofs.FsInv.Inv demoVol 6 demoSt :=
       rcases this with rfl | rfl | rfl | rfl | rfl | rfl <;> decide) (by decide)
     (fun i hi _ => by omega)
 example : Model.Fs.abs (Model.Fs.removetree demoVol (Model.Fs.run demoVol demoSt (demoOps.take 4)) []).1 = [] := by decide
+-- the frame theorem's premise meets a state with entries on both sides: removetree [1] keeps [3], drops [1], [1,2]
+example : Model.Fs.abs (Model.Fs.run demoVol demoSt (demoOps.take 4)) =
+    [⟨[1], true, 0⟩, ⟨[1, 2], false, 700⟩, ⟨[3], false, 0⟩] := by decide
+example : Model.Fs.abs (Model.Fs.removetree demoVol (Model.Fs.run demoVol demoSt (demoOps.take 4)) [1]).1 =
+    [⟨[3], false, 0⟩] := by decide
+example : (Model.Fs.removetree demoVol (Model.Fs.run demoVol demoSt (demoOps.take 4)) [1]).1.fat =
+    [4088, 4095, 0, 0, 0, 0, 0, 0] := by decide
 example : (Model.Fs.run demoVol demoSt demoOps).fat = [4088, 4095, 4095, 4095, 0, 0, 0, 0] := by decide
 example : Model.Fs.abs (Model.Fs.run demoVol demoSt demoOps) = [⟨[1], true, 0⟩, ⟨[1, 2], false, 10⟩] := by decide
 
